@@ -95,7 +95,8 @@ Pick(f, r, c, s, k) ==
   /\ UNCHANGED <<rows, cols>>
 \* layouts are explored uncorrupted; corruptions are applied to the plain style with the identity orders
 Ident(n) == [i \in 1..n |-> i]
-Next == \/ \E f \in [(1..Len(rows)) \X (1..Len(cols)) -> Pool], r \in Orders(Len(rows)), c \in Orders(Len(cols)),
+Next == ph = 0 /\
+        \/ \E f \in [(1..Len(rows)) \X (1..Len(cols)) -> Pool], r \in Orders(Len(rows)), c \in Orders(Len(cols)),
               s \in 1..Len(Styles) : Pick(f, r, c, s, <<"none", 0, 0>>)
         \/ \E f \in [(1..Len(rows)) \X (1..Len(cols)) -> Pool], k \in Corruptions \ {<<"none", 0, 0>>} :
               CorOK(k) /\ Pick(f, Ident(Len(rows)), Ident(Len(cols)), 1, k)
@@ -103,25 +104,43 @@ Next == \/ \E f \in [(1..Len(rows)) \X (1..Len(cols)) -> Pool], r \in Orders(Len
 Lines == Corrupt(Layout(Styles[style]), cor)
 Text == Render(Lines, Styles[style].eol, Styles[style].final)
 
-LayoutFree ==
-  (ph = 1 /\ cor[1] = "none") =>
-     /\ ValidTable(T, NumT) /\ WellFormed(Lines) /\ IsLayoutOf(Lines, T)
-     /\ PRead(Lines, NumT) = Ok(DenoteTable(T, NumT))
-     /\ Machine(Text, NumT) = Ok(DenoteTable(T, NumT))
-     /\ IsFunctional(DenoteTable(T, NumT))
-     /\ Cardinality(DenoteTable(T, NumT)) = Len(rows) * Len(cols)
-StarIsGap ==
-  (ph = 1 /\ cor[1] = "none") =>
-     LET m == Machine(Text, NumT).m
-     IN /\ \A t \in m : t[1] # STAR /\ t[2] # STAR
-        /\ (\E i \in 1..Len(rows) : rows[i] = <<STAR>>) => \E t \in m : t[1] = Gap
-        /\ ((\E j \in 1..Len(cols) : cols[j] = <<STAR>>) /\ rows # <<>>) => \E t \in m : t[2] = Gap
-CorruptRejected ==
-  (ph = 1 /\ Named(cor)) => /\ WellFormed(Lines)
-                            /\ Malformed(Lines, NumT)
-                            /\ Machine(Text, NumT) = Err
-MachineIsPRead ==
-  ph = 1 => (WellFormed(Lines) /\ Machine(Text, NumT) = PRead(Lines, NumT))
+\* the named formulas, over the layout L, the table's denotation D, the transcription's result on the
+\* rendered text (mach) and the property-level reading of L (pread)
+LayoutFreeP(L, D, mach, pread) ==
+  cor[1] = "none" =>
+     /\ ValidTable(T, NumT) /\ WellFormed(L) /\ IsLayoutOf(L, T)
+     /\ pread = Ok(D)
+     /\ mach = Ok(D)
+     /\ IsFunctional(D)
+     /\ Cardinality(D) = Len(rows) * Len(cols)
+StarIsGapP(mach) ==
+  cor[1] = "none" =>
+     /\ \A t \in mach.m : t[1] # STAR /\ t[2] # STAR
+     /\ (\E i \in 1..Len(rows) : rows[i] = <<STAR>>) => \E t \in mach.m : t[1] = Gap
+     /\ ((\E j \in 1..Len(cols) : cols[j] = <<STAR>>) /\ rows # <<>>) => \E t \in mach.m : t[2] = Gap
+CorruptRejectedP(L, mach) ==
+  Named(cor) => /\ WellFormed(L)
+                /\ Malformed(L, NumT)
+                /\ mach = Err
+MachineIsPReadP(L, mach, pread) == WellFormed(L) /\ mach = pread
+
+\* one invariant, so that the layout is generated, rendered and read once per state
+TablesOK ==
+  ph = 1 =>
+    LET L == Lines
+        D == DenoteTable(T, NumT)
+        mach == Machine(Render(L, Styles[style].eol, Styles[style].final), NumT)
+        pread == PRead(L, NumT)
+    IN /\ LayoutFreeP(L, D, mach, pread)
+       /\ StarIsGapP(mach)
+       /\ CorruptRejectedP(L, mach)
+       /\ MachineIsPReadP(L, mach, pread)
+
+\* the same formulas as separate invariants (for diagnosis; the cfg files check TablesOK)
+LayoutFree      == ph = 1 => LayoutFreeP(Lines, DenoteTable(T, NumT), Machine(Text, NumT), PRead(Lines, NumT))
+StarIsGap       == ph = 1 => StarIsGapP(Machine(Text, NumT))
+CorruptRejected == ph = 1 => CorruptRejectedP(Lines, Machine(Text, NumT))
+MachineIsPRead  == ph = 1 => MachineIsPReadP(Lines, Machine(Text, NumT), PRead(Lines, NumT))
 
 \* deliberately broken variant (non-vacuity): a reader that does not map '*' to the gap symbol
 LayoutFreeNoStar ==
